@@ -74,7 +74,74 @@ func TestC13RoundTrip(t *testing.T) {
 	col := NewCollector("TestC13RoundTrip",
 		"rapid: sequences of 1-8 messages (kind, boundary-biased length, write path, chunking) through a writer Conn with drawn write-buffer size/pool/role into an in-memory stream read by a peer Conn with drawn read-buffer size and read fragmentation; oracle: ReadMessage sequence == written sequence. non-trivial: some message longer than the write buffer, or written in >1 chunk, or read fragmentation finer than a frame header (<=8 bytes)").Use(t)
 	known := isKnown("C13", sigWTSplit)
-	rapid.Check(t, func(rt *rapid.T) {
+	rapid.Check(t, propC13(col, known))
+	col.RequireClasses(t, "msg>W", "chunked", "read.frag<=8", "path.NextWriter+ReadFrom", "path.WritePreparedMessage")
+}
+
+// TestC13KnownSplit is the deterministic demonstration of the recorded
+// streaming-writer defect (fails as a violation unless listed as known).
+func TestC13StreamingAboveBuffer(t *testing.T) {
+	col := NewCollector("TestC13StreamingAboveBuffer",
+		"deterministic sweep: one text message of W-1..W+1, 2W, 2(W+9)+1 bytes through each streaming write path (Write in one call, WriteString, ReadFrom) on a server-role and client-role Conn with the default buffer; oracle: peer reads exactly one message with identical bytes. every case is non-trivial").Use(t)
+	var bad []string
+	for _, server := range []bool{true, false} {
+		for _, path := range []int{pathWriterWrite, pathWriterWriteString, pathWriterReadFrom} {
+			for _, n := range []int{4095, 4096, 4097, 8192, 2*(4096+9) + 1, 9000} {
+				for _, eofData := range []bool{false, true} {
+					if path != pathWriterReadFrom && eofData {
+						continue
+					}
+					pipe := newHalfPipe()
+					wc := webtrans.NewConn(nil, &memWTStream{out: pipe, in: newHalfPipe()}, server, 0, 0, nil, nil, nil)
+					rc := webtrans.NewConn(nil, &memWTStream{in: pipe, out: newHalfPipe()}, !server, 0, 0, nil, nil, nil)
+					pl := makePayload(n, 7)
+					if err := wtWrite(wc, path, false, pl, nil, eofData); err != nil {
+						t.Fatalf("write: %v", err)
+					}
+					pipe.CloseWrite()
+					var shape []string
+					ok := true
+					cnt := 0
+					for {
+						mt, d, err := rc.ReadMessage()
+						if err != nil {
+							if err != io.EOF && !webtrans.IsCloseError(err, webtrans.CloseAbnormalClosure) {
+								shape = append(shape, "err:"+err.Error())
+							}
+							break
+						}
+						cnt++
+						k := "text"
+						if mt == webtrans.BinaryMessage {
+							k = "binary"
+						}
+						shape = append(shape, fmt.Sprintf("%s:%d", k, len(d)))
+						if cnt == 1 && (mt != webtrans.TextMessage || !bytes.Equal(d, pl)) {
+							ok = false
+						}
+					}
+					if cnt != 1 {
+						ok = false
+					}
+					col.Case(fmt.Sprintf("%v|%d|%d|%v", server, path, n, eofData), true,
+						map[string]any{"server": server, "path": wtPathNames[path], "len": n, "read": shape}, "path."+wtPathNames[path])
+					if !ok {
+						bad = append(bad, fmt.Sprintf("server=%v %s len=%d => %v", server, wtPathNames[path], n, shape))
+					}
+				}
+			}
+		}
+	}
+	detail := ""
+	if len(bad) > 0 {
+		detail = fmt.Sprintf("%d of the swept cases are read back as several messages, e.g. %s", len(bad), bad[0])
+	}
+	demoFinding(t, col, "C13", sigWTSplit, len(bad) > 0, detail)
+}
+
+// propC13 is the property body of TestC13RoundTrip, shared with the native fuzz target (rapid.MakeFuzz).
+func propC13(col *Collector, known bool) func(rt *rapid.T) {
+	return func(rt *rapid.T) {
 		W := 0
 		if rapid.Bool().Draw(rt, "Wtable") {
 			W = rapid.SampledFrom(wtWriteBufSizes).Draw(rt, "W")
@@ -166,67 +233,5 @@ func TestC13RoundTrip(t *testing.T) {
 			}
 		}
 		_ = mp
-	})
-	col.RequireClasses(t, "msg>W", "chunked", "read.frag<=8", "path.NextWriter+ReadFrom", "path.WritePreparedMessage")
-}
-
-// TestC13KnownSplit is the deterministic demonstration of the recorded
-// streaming-writer defect (fails as a violation unless listed as known).
-func TestC13StreamingAboveBuffer(t *testing.T) {
-	col := NewCollector("TestC13StreamingAboveBuffer",
-		"deterministic sweep: one text message of W-1..W+1, 2W, 2(W+9)+1 bytes through each streaming write path (Write in one call, WriteString, ReadFrom) on a server-role and client-role Conn with the default buffer; oracle: peer reads exactly one message with identical bytes. every case is non-trivial").Use(t)
-	var bad []string
-	for _, server := range []bool{true, false} {
-		for _, path := range []int{pathWriterWrite, pathWriterWriteString, pathWriterReadFrom} {
-			for _, n := range []int{4095, 4096, 4097, 8192, 2*(4096+9) + 1, 9000} {
-				for _, eofData := range []bool{false, true} {
-					if path != pathWriterReadFrom && eofData {
-						continue
-					}
-					pipe := newHalfPipe()
-					wc := webtrans.NewConn(nil, &memWTStream{out: pipe, in: newHalfPipe()}, server, 0, 0, nil, nil, nil)
-					rc := webtrans.NewConn(nil, &memWTStream{in: pipe, out: newHalfPipe()}, !server, 0, 0, nil, nil, nil)
-					pl := makePayload(n, 7)
-					if err := wtWrite(wc, path, false, pl, nil, eofData); err != nil {
-						t.Fatalf("write: %v", err)
-					}
-					pipe.CloseWrite()
-					var shape []string
-					ok := true
-					cnt := 0
-					for {
-						mt, d, err := rc.ReadMessage()
-						if err != nil {
-							if err != io.EOF && !webtrans.IsCloseError(err, webtrans.CloseAbnormalClosure) {
-								shape = append(shape, "err:"+err.Error())
-							}
-							break
-						}
-						cnt++
-						k := "text"
-						if mt == webtrans.BinaryMessage {
-							k = "binary"
-						}
-						shape = append(shape, fmt.Sprintf("%s:%d", k, len(d)))
-						if cnt == 1 && (mt != webtrans.TextMessage || !bytes.Equal(d, pl)) {
-							ok = false
-						}
-					}
-					if cnt != 1 {
-						ok = false
-					}
-					col.Case(fmt.Sprintf("%v|%d|%d|%v", server, path, n, eofData), true,
-						map[string]any{"server": server, "path": wtPathNames[path], "len": n, "read": shape}, "path."+wtPathNames[path])
-					if !ok {
-						bad = append(bad, fmt.Sprintf("server=%v %s len=%d => %v", server, wtPathNames[path], n, shape))
-					}
-				}
-			}
-		}
 	}
-	detail := ""
-	if len(bad) > 0 {
-		detail = fmt.Sprintf("%d of the swept cases are read back as several messages, e.g. %s", len(bad), bad[0])
-	}
-	demoFinding(t, col, "C13", sigWTSplit, len(bad) > 0, detail)
 }
